@@ -136,29 +136,844 @@ def i2c_valid_iff(c):
     c.ensure('reported-once-when-decidable', "implies(img[0:4] != b'0xBC' or img[4] in (0, 1), "
              "len(sent('cb')) == 1 and is_same(sent('cb')[0][1][0], el))")
     c.ensure('never-reported-twice', "len(sent('cb')) <= 1 and len(sent('cb0')) == 0")
+    c.snapshot('e', 'el.elements')
+    c.ensure('fields-as-stored', "(e['version'] == img[4] and e['radio_channel'] == img[5] and e['radio_speed'] == img[6] and "
+             "same_float(e['pitch_trim'], unpack('<f', img[7:11])[0]) and same_float(e['roll_trim'], unpack('<f', img[11:15])[0])) "
+             "if ('version' in e and img[0:4] == b'0xBC') else True")
+    c.ensure('address-as-stored', "(e['radio_address'] == img[15] * 2 ** 32 + unpack('<I', img[16:20])[0]) "
+             "if ('radio_address' in e and img[0:4] == b'0xBC' and img[4] == 1) else True")
 
 
-@contract('C14', 'i2c.single-byte-corruption', [I2C + ':I2CElement.write_data', I2C + ':I2CElement.update', I2C + ':I2CElement.new_data',
-                                               I2C + ':I2CElement._checksum256'],
-          clause='any single corrupted byte (any position, any other value) of an image written by write_data is detected: the '
-                 'element read back is not valid.  Excluded, because the format itself cannot detect it: the corruption that '
-                 'turns the version byte 0 into 1 or 1 into 0 (the parser then checks another length, see DESIGN C14 limit)')
+@contract('C14', 'i2c.single-byte-corruption', [I2C + ':I2CElement.update', I2C + ':I2CElement.new_data', I2C + ':I2CElement._checksum256'],
+          clause='any single corrupted byte (any position, any other value) of ANY valid image - in particular of every image '
+                 'written by write_data, which is valid by i2c.roundtrip - is detected: the element read back is not valid.  '
+                 'Excluded, because the format itself cannot detect it: the corruption that turns the version byte 0 into 1 or '
+                 '1 into 0 (the parser then checks another length, see DESIGN C14 limit)')
 def i2c_corruption(c):
-    el, mh = i2c_element(c)
-    version = i2c_fields(c)
-    i2c_fill(c, el, version)
-    c.require(I2C_OK)
-    c.call((el, 'write_data'), c.ext('wcb'))
-    c.require('raised is None')
-    c.snapshot('good', "bytes(sent('mh.write')[0][1][2])")
+    version = c.choice('version', [0, 1])
     n = 16 if version == 0 else 21
+    c.bytes('good', n)
+    c.let('n', n)
+    c.require("good[4] == %d and good[0:4] == b'0xBC' and sum(good[0:n - 1]) %% 256 == good[n - 1]" % version)
     c.int('pos', 0, n - 1)
     c.int('newval', 0, 255)
     c.require('newval != good[pos]')
     c.require('not (pos == 4 and newval in (0, 1))')
     c.snapshot('img', 'bytes([(newval if i == pos else good[i]) for i in range(%d)])' % n)
-    rd, _ = i2c_element(c)
+    rd, mh = i2c_element(c)
     c.let('rd', rd)
     i2c_feed(c, rd, mh, 'img', c.ext('cb'))
     c.ensure('no-exception', 'raised is None')
     c.ensure('corruption-detected', 'rd.valid is False')
+
+
+# ======================================================================================= 1-wire deck memory
+
+# image the deck firmware / bootloader reads: header 0xEB, used pins (uint32 LE), vendor id, product id, CRC32 low byte of
+# the 7 previous bytes; element area: version 0, length of the TLV data, TLV records (id, length, ISO-8859-1 text), CRC32
+# low byte of the area so far.  Ids: 1 board name, 2 board revision, 3 custom.
+OW_IDS = {'Board name': 1, 'Board revision': 2, 'Custom': 3}
+OW_VAR = {'Board name': 'name', 'Board revision': 'rev', 'Custom': 'custom'}
+
+
+def ow_element(c, mhname='mh'):
+    mh = c.ext(mhname)
+    return c.new(OW + ':OWElement', 0, 1, 112, 0, mh), mh
+
+
+def ow_content(c, keys, lens):
+    """symbolic deck identity: header fields and one Latin-1 string of the given length per element key"""
+    c.int('pins'), c.int('vid'), c.int('pid')
+    for k, n in zip(keys, lens):
+        c.str(OW_VAR[k], n, lo=0, hi=255)
+    c.let('written', None)
+    return '{' + ', '.join('%r: %s' % (k, OW_VAR[k]) for k in keys) + '}'
+
+
+def ow_fill(c, el, dict_expr):
+    c.let('el', el)
+    c.snapshot('_', "(setattr(el, 'pins', pins), setattr(el, 'vid', vid), setattr(el, 'pid', pid), el.elements.update(%s))" % dict_expr)
+
+
+def ow_image_expr(keys):
+    tlv = ' + '.join("pack('BB', %d, len(%s)) + %s.encode('ISO-8859-1')" % (OW_IDS[k], OW_VAR[k], OW_VAR[k]) for k in reversed(keys)) or "b''"
+    return tlv
+
+
+OW_OK = '0 <= pins < 2 ** 32 and 0 <= vid <= 255 and 0 <= pid <= 255'
+
+
+def ow_feed(c, rd, img_name, cb):
+    """one complete read through the public update(): 11 bytes at 0, then - if the element asks for it - the element
+    area of the length it requests at address 8, served from the same image"""
+    c.reset_trace()
+    c.call((rd, 'update'), cb)
+    c.ensure('update-no-exception', 'raised is None')
+    c.ensure('update-requests-header', "calls('mh') == ('mh.read',) and sent('mh.read')[0][1][1:] == (0, 11)")
+    c.reset_trace()
+    c.call((rd, 'new_data'), rd, 0, c.snapshot('_first', '%s[0:11]' % img_name))
+    tr = c.get('trace')
+    if c.get('raised') is None and tr and tr[-1][0] == 'mh.read':
+        c.ensure('second-read-is-element-area', "len(calls('mh')) == 1 and sent('mh.read')[0][1][1:] == (8, %s[9] + 3)" % img_name)
+        c.call((rd, 'new_data'), rd, 8, c.snapshot('_second', '%s[8:8 + %s[9] + 3]' % (img_name, img_name)))
+
+
+def _ow(keys, lens):
+    tag = '+'.join('%s%d' % (OW_VAR[k], n) for k, n in zip(keys, lens)) or 'empty'
+    bound = 'element insertion order %r with string lengths %r (enumerated configurations, not all lengths)' % (keys, lens)
+
+    @contract('C14', 'ow.write_data.' + tag, [OW + ':OWElement.write_data'],
+              clause='the 1-wire image written is header + CRC, element area (TLV, in reverse insertion order as the code emits '
+                     'them) + CRC, in one write at address 0; unrepresentable header fields raise and nothing is written',
+              bounded=bound)
+    def w(c):
+        el, mh = ow_element(c)
+        ow_fill(c, el, ow_content(c, keys, lens))
+        c.reset_trace()
+        c.call((el, 'write_data'), c.ext('wcb'))
+        if c.get('raised') is None:
+            c.ensure('one-write-nothing-else', "calls() == ('mh.write',)")
+            c.snapshot('w', "sent('mh.write')[0]")
+            c.ensure('target', 'is_same(w[1][0], el) and w[1][1] == 0 and len(w[1]) == 3 and w[2] == {}')
+            c.snapshot('hdr', "pack('<BIBB', 0xEB, pins, vid, pid)")
+            c.snapshot('tlv', ow_image_expr(keys))
+            c.snapshot('area', "pack('BB', 0, len(tlv)) + tlv")
+            c.ensure('layout', 'bytes(w[1][2]) == hdr + bytes([crc32(hdr) & 0xFF]) + area + bytes([crc32(area) & 0xFF])')
+            c.ensure('tuple-of-ints', "typename(w[1][2]) == 'tuple'")
+        else:
+            c.ensure('nothing-written-when-raising', 'calls() == ()')
+            c.ensure('declared-errors-only', "raised == 'struct.error'")
+        c.ensure('raises-iff-unrepresentable', 'iff(raised is None, %s)' % OW_OK)
+
+    @contract('C14', 'ow.roundtrip.' + tag, [OW + ':OWElement.write_data', OW + ':OWElement.update', OW + ':OWElement.new_data',
+                                            OW + ':OWElement._parse_and_check_header', OW + ':OWElement._parse_and_check_elements'],
+              clause='a 1-wire image written by write_data and read by a fresh element (one or two reads, as the code requests '
+                     'them) is reported valid exactly once with the same pins, vid, pid and exactly the same elements',
+              bounded=bound)
+    def r(c):
+        el, mh = ow_element(c)
+        d = ow_content(c, keys, lens)
+        ow_fill(c, el, d)
+        c.require(OW_OK)
+        c.call((el, 'write_data'), c.ext('wcb'))
+        c.ensure('write-no-exception', 'raised is None')
+        c.snapshot('img', "bytes(sent('mh.write')[0][1][2])")
+        rd, _ = ow_element(c)
+        c.let('rd', rd)
+        ow_feed(c, rd, 'img', c.ext('cb'))
+        c.ensure('no-exception', 'raised is None')
+        c.ensure('valid', 'rd.valid is True')
+        c.ensure('reported-once', "len(sent('cb')) == 1 and is_same(sent('cb')[0][1][0], rd) and rd._update_finished_cb is None")
+        c.ensure('header-round-trips', 'rd.pins == pins and rd.vid == vid and rd.pid == pid')
+        c.ensure('elements-round-trip', 'rd.elements == %s and len(rd.elements) == %d' % (d, len(keys)))
+    return w, r
+
+
+for _k, _l in (((), ()),
+               (('Board name',), (0,)), (('Board name',), (1,)),
+               (('Board revision',), (3,)),                      # element area of 5 bytes starting with id 2
+               (('Board name', 'Board revision'), (8, 2)),
+               (('Board name', 'Board revision', 'Custom'), (2, 1, 0)),
+               (('Custom', 'Board name', 'Board revision'), (1, 2, 3)),
+               (('Custom',), (72,))):                            # element area of 74 bytes starting with id 3
+    _ow(_k, _l)
+
+
+def _ow_valid(lens):
+    """validity follows the two CRCs.  The image is built from its content plus two symbolic CRC errors dh, de (added to the
+    correct CRC bytes modulo 256) so that every solver model is a real image under the real crc32 in the replay."""
+    tag = '-'.join(str(n) for n in lens) or 'empty'
+
+    @contract('C14', 'ow.valid-iff-crc.' + tag, [OW + ':OWElement.update', OW + ':OWElement.new_data',
+                                                OW + ':OWElement._parse_and_check_header', OW + ':OWElement._parse_and_check_elements'],
+              clause='on every read (history: an earlier read of another image on the same object) a 1-wire image with a well '
+                     'formed element area is reported valid exactly when the start byte is 0xEB and both stored CRC bytes equal '
+                     'the low byte of the CRC32 recomputed over the header resp. the element area; it is reported exactly once '
+                     'and the header fields are the ones stored',
+              bounded='element areas of %d records with text lengths %r; record ids symbolic in 1..3' % (len(lens), lens))
+    def v(c):
+        rd, mh = ow_element(c)
+        c.let('rd', rd)
+        for suffix, ls in (('0', ()), ('', lens)):        # the earlier image has an empty element area
+            c.int('start' + suffix, 0, 255), c.int('pins' + suffix, 0, 2 ** 32 - 1), c.int('vid' + suffix, 0, 255), c.int('pid' + suffix, 0, 255)
+            c.int('aver' + suffix, 0, 255)
+            c.int('dh' + suffix, 0, 255), c.int('de' + suffix, 0, 255)
+            recs = []
+            for i, n in enumerate(ls):
+                c.int('id%d%s' % (i, suffix), 1, 3)
+                c.bytes('txt%d%s' % (i, suffix), n)
+                recs.append("pack('BB', id%d%s, %d) + txt%d%s" % (i, suffix, n, i, suffix))
+            c.snapshot('hdr', "pack('<BIBB', start%s, pins%s, vid%s, pid%s)" % ((suffix,) * 4))
+            c.snapshot('tlv', ' + '.join(recs) or "b''")
+            c.snapshot('area', "pack('BB', aver%s, len(tlv)) + tlv" % suffix)
+            c.snapshot('img' + suffix, 'hdr + bytes([(crc32(hdr) + dh%s) %% 256]) + area + bytes([(crc32(area) + de%s) %% 256])' % (suffix, suffix))
+            ow_feed(c, rd, 'img' + suffix, c.ext('cb' + suffix))
+            c.ensure('no-exception', 'raised is None')
+        c.ensure('valid-iff-crc', 'rd.valid == (start == 0xEB and dh == 0 and de == 0)')
+        c.ensure('valid-is-bool', "typename(rd.valid) == 'bool'")
+        c.ensure('reported-exactly-once', "len(sent('cb')) == 1 and is_same(sent('cb')[0][1][0], rd) and len(sent('cb0')) == 0 "
+                 "and rd._update_finished_cb is None")
+        c.ensure('header-fields', 'rd.pins == pins and rd.vid == vid and rd.pid == pid')
+    return v
+
+
+for _l in ((), (0,), (2,), (1, 2)):
+    _ow_valid(_l)
+
+
+@contract('C14', 'ow.any-element-area', [OW + ':OWElement.update', OW + ':OWElement.new_data',
+                                       OW + ':OWElement._parse_and_check_header', OW + ':OWElement._parse_and_check_elements'],
+          clause='validity follows the CRC for ANY element-area content: an image whose header and element-area CRC bytes are '
+                 'both right is reported valid (exactly once, no exception), whatever the bytes of the element area are',
+          bounded='element data of 3 arbitrary bytes', thorough_only=True)      # FINDING on the unchanged tree, see module docstring
+def ow_any_area(c):
+    rd, mh = ow_element(c)
+    c.let('rd', rd)
+    c.int('pins', 0, 2 ** 32 - 1), c.int('vid', 0, 255), c.int('pid', 0, 255)
+    c.bytes('tlv', 3)
+    c.snapshot('hdr', "pack('<BIBB', 0xEB, pins, vid, pid)")
+    c.snapshot('area', "pack('BB', 0, len(tlv)) + tlv")
+    c.snapshot('img', 'hdr + bytes([crc32(hdr) & 0xFF]) + area + bytes([crc32(area) & 0xFF])')
+    ow_feed(c, rd, 'img', c.ext('cb'))
+    c.ensure('reported-valid-without-exception', "raised is None and rd.valid is True and len(sent('cb')) == 1")
+
+
+# ======================================================================================= lighthouse memory layout
+
+# firmware structs (pulse_processor.h / lighthouse_calibration.h), little endian, packed:
+#   baseStationGeometry_t  { float origin[3]; float mat[3][3]; bool valid; }                       49 bytes
+#   lighthouseCalibration_t{ struct { float phase, tilt, curve, gibmag, gibphase, ogeemag, ogeephase; } sweep[2];
+#                            uint32_t uid; bool valid; }                                           61 bytes
+# memory map of the lighthouse memory: geometry of base station i at 0x0000 + i * 0x100, calibration at 0x1000 + i * 0x100
+GEO_FMT = '<ffffffffffff?'
+CAL_FMT = '<ffffffffffffffL?'
+SWEEP_FIELDS = ('phase', 'tilt', 'curve', 'gibmag', 'gibphase', 'ogeemag', 'ogeephase')
+
+
+def geo_object(c, name='g', vname='gv', validname='gvalid'):
+    """a geometry object as client code fills it: origin, rotation matrix, valid"""
+    g = c.new(LH + ':LighthouseBsGeometry')
+    v = c.floats(vname, 12)
+    c.bool(validname)
+    c.let(name, g)
+    c.snapshot('_', "(setattr({g}, 'origin', [{v}[0], {v}[1], {v}[2]]), setattr({g}, 'rotation_matrix', [[{v}[3], {v}[4], {v}[5]], "
+                    "[{v}[6], {v}[7], {v}[8]], [{v}[9], {v}[10], {v}[11]]]), setattr({g}, 'valid', {b}))".format(g=name, v=vname, b=validname))
+    return g
+
+
+def calib_object(c, name='k', vname='kv', uidname='uid', validname='kvalid'):
+    k = c.new(LH + ':LighthouseBsCalibration')
+    c.floats(vname, 14)
+    c.int(uidname)
+    c.bool(validname)
+    c.let(name, k)
+    sets = ["setattr(%s.sweeps[%d], %r, %s[%d])" % (name, s, f, vname, 7 * s + i) for s in (0, 1) for i, f in enumerate(SWEEP_FIELDS)]
+    c.snapshot('_', '(' + ', '.join(sets) + ", setattr({k}, 'uid', {u}), setattr({k}, 'valid', {b}))".format(k=name, u=uidname, b=validname))
+    return k
+
+
+GEO_FLAT = 'g2.origin + g2.rotation_matrix[0] + g2.rotation_matrix[1] + g2.rotation_matrix[2]'
+CAL_FLAT = '[field(g2.sweeps[s], f) for s in (0, 1) for f in %r]' % (SWEEP_FIELDS,)
+
+
+@contract('C14', 'lh.geo.add_mem_data', [LH + ':LighthouseBsGeometry.add_mem_data', LH + ':LighthouseBsGeometry._add_vector'],
+          clause='geometry memory image = firmware struct baseStationGeometry_t (12 binary32 + bool, 49 bytes) appended to the buffer; '
+                 'a component outside binary32 raises OverflowError')
+def lh_geo_add(c):
+    g = geo_object(c)
+    pre = c.bytearray('pre', 2)
+    c.snapshot('pre0', 'bytes(pre)')
+    c.call((g, 'add_mem_data'), pre)
+    c.ensure('raises-iff-unrepresentable', 'iff(raised is None, all(fits_f32(x) for x in gv))')
+    if c.get('raised') is None:
+        c.ensure('layout', 'bytes(pre) == pre0 + pack(%r, *gv, gvalid)' % GEO_FMT)
+        c.ensure('size', 'len(pre) - 2 == 49 == g.SIZE_GEOMETRY')
+        c.ensure('object-unchanged', 'all(same_float(g.origin[i], gv[i]) for i in range(3)) and g.valid == gvalid')
+    else:
+        c.ensure('declared-errors-only', "raised == 'OverflowError'")
+
+
+@contract('C14', 'lh.geo.set_from_mem_data', [LH + ':LighthouseBsGeometry.set_from_mem_data', LH + ':LighthouseBsGeometry._read_vector'],
+          clause='any 49-byte geometry image parses to the 12 binary32 values in struct order and valid = (last byte != 0)')
+def lh_geo_set(c):
+    g = c.new(LH + ':LighthouseBsGeometry')
+    c.let('g2', g)
+    c.bytes('img', 49)
+    c.call((g, 'set_from_mem_data'), c.get('img'))
+    c.ensure('no-exception', 'raised is None')
+    c.snapshot('want', 'unpack(%r, img)' % GEO_FMT)
+    c.snapshot('flat', GEO_FLAT)
+    c.ensure('fields', 'len(flat) == 12 and all(same_float(flat[i], want[i]) for i in range(12))')
+    c.ensure('valid-flag', "g2.valid == (img[48] != 0) and typename(g2.valid) == 'bool'")
+    c.ensure('shape', "typename(g2.origin) == 'list' and len(g2.origin) == 3 and len(g2.rotation_matrix) == 3 and "
+                      "all(len(r) == 3 for r in g2.rotation_matrix)")
+
+
+@contract('C14', 'lh.geo.mem-roundtrip', [LH + ':LighthouseBsGeometry.add_mem_data', LH + ':LighthouseBsGeometry.set_from_mem_data',
+                                         LH + ':LighthouseMemory.write_geo_data', LH + ':LighthouseMemory.read_geo_data',
+                                         LH + ':LighthouseMemory.new_data'],
+          clause='geometry written through LighthouseMemory.write_geo_data (page address 0x100 * id, 49 bytes, flushed) and read back '
+                 'through read_geo_data / new_data is delivered once to the reader as an equal geometry at binary32 precision')
+def lh_geo_roundtrip(c):
+    mh = c.ext('mh')
+    mem = c.new(LH + ':LighthouseMemory', 4, 0x14, 0x2000, mh)
+    c.let('mem', mem)
+    g = geo_object(c)
+    c.int('bs', 0, 15)
+    c.require('all(fits_f32(x) for x in gv)')
+    c.call((mem, 'write_geo_data'), c.get('bs'), g, c.ext('wcb'))
+    c.ensure('write-no-exception', 'raised is None')
+    c.ensure('one-write', "calls('mh') == ('mh.write',)")
+    c.snapshot('w', "sent('mh.write')[0]")
+    c.ensure('write-target', "is_same(w[1][0], mem) and w[1][1] == 0x100 * bs and w[2] == {'flush_queue': True} and len(w[1][2]) == 49")
+    c.snapshot('img', 'bytes(w[1][2])')
+    c.reset_trace()
+    c.call((mem, 'read_geo_data'), c.get('bs'), c.ext('rcb'))
+    c.ensure('read-request', "raised is None and calls('mh') == ('mh.read',) and sent('mh.read')[0][1][1:] == (0x100 * bs, 49)")
+    c.call((mem, 'new_data'), mem, c.snapshot('_a', '0x100 * bs'), c.get('img'))
+    c.ensure('no-exception', 'raised is None')
+    c.ensure('delivered-once', "len(sent('rcb')) == 1 and is_same(sent('rcb')[0][1][0], mem) and mem._update_finished_cb is None")
+    c.snapshot('g2', "sent('rcb')[0][1][1]")
+    c.snapshot('flat', GEO_FLAT)
+    c.ensure('is-geometry', "typename(g2) == 'LighthouseBsGeometry'")
+    c.ensure('equal-content', 'len(flat) == 12 and all(same_float(flat[i], f32(gv[i])) for i in range(12)) and g2.valid == gvalid')
+
+
+@contract('C14', 'lh.calib.add_mem_data', [LH + ':LighthouseBsCalibration.add_mem_data', LH + ':LighthouseBsCalibration._pack_sweep_calib'],
+          clause='calibration memory image = firmware struct lighthouseCalibration_t (2 x 7 binary32, uint32 uid, bool; 61 bytes) appended '
+                 'to the buffer; unrepresentable values raise')
+def lh_calib_add(c):
+    k = calib_object(c)
+    pre = c.bytearray('pre', 1)
+    c.snapshot('pre0', 'bytes(pre)')
+    c.call((k, 'add_mem_data'), pre)
+    c.ensure('raises-iff-unrepresentable', 'iff(raised is None, all(fits_f32(x) for x in kv) and 0 <= uid < 2 ** 32)')
+    if c.get('raised') is None:
+        c.ensure('layout', 'bytes(pre) == pre0 + pack(%r, *kv, uid, kvalid)' % CAL_FMT)
+        c.ensure('size', 'len(pre) - 1 == 61 == k.SIZE_CALIBRATION')
+    else:
+        c.ensure('declared-errors-only', "raised in ('OverflowError', 'struct.error')")
+
+
+@contract('C14', 'lh.calib.set_from_mem_data', [LH + ':LighthouseBsCalibration.set_from_mem_data',
+                                               LH + ':LighthouseBsCalibration._unpack_sweep_calibration'],
+          clause='any 61-byte calibration image parses to the 14 binary32 values in struct order, the uid and valid = (last byte != 0)')
+def lh_calib_set(c):
+    k = c.new(LH + ':LighthouseBsCalibration')
+    c.let('g2', k)
+    c.bytes('img', 61)
+    c.call((k, 'set_from_mem_data'), c.get('img'))
+    c.ensure('no-exception', 'raised is None')
+    c.snapshot('want', 'unpack(%r, img)' % CAL_FMT)
+    c.snapshot('flat', CAL_FLAT)
+    c.ensure('fields', 'len(flat) == 14 and all(same_float(flat[i], want[i]) for i in range(14))')
+    c.ensure('uid-valid', "g2.uid == want[14] and g2.valid == (img[60] != 0) and typename(g2.valid) == 'bool' and len(g2.sweeps) == 2")
+
+
+@contract('C14', 'lh.calib.mem-roundtrip', [LH + ':LighthouseBsCalibration.add_mem_data', LH + ':LighthouseBsCalibration.set_from_mem_data',
+                                           LH + ':LighthouseMemory.write_calib_data', LH + ':LighthouseMemory.read_calib_data',
+                                           LH + ':LighthouseMemory.new_data'],
+          clause='calibration written through LighthouseMemory.write_calib_data (page address 0x1000 + 0x100 * id, 61 bytes, flushed) and '
+                 'read back through read_calib_data / new_data is delivered once as an equal calibration at binary32 precision')
+def lh_calib_roundtrip(c):
+    mh = c.ext('mh')
+    mem = c.new(LH + ':LighthouseMemory', 4, 0x14, 0x2000, mh)
+    c.let('mem', mem)
+    k = calib_object(c)
+    c.int('bs', 0, 15)
+    c.require('all(fits_f32(x) for x in kv) and 0 <= uid < 2 ** 32')
+    c.call((mem, 'write_calib_data'), c.get('bs'), k, c.ext('wcb'))
+    c.ensure('write-no-exception', 'raised is None')
+    c.ensure('one-write', "calls('mh') == ('mh.write',)")
+    c.snapshot('w', "sent('mh.write')[0]")
+    c.ensure('write-target', "is_same(w[1][0], mem) and w[1][1] == 0x1000 + 0x100 * bs and w[2] == {'flush_queue': True} and len(w[1][2]) == 61")
+    c.snapshot('img', 'bytes(w[1][2])')
+    c.reset_trace()
+    c.call((mem, 'read_calib_data'), c.get('bs'), c.ext('rcb'))
+    c.ensure('read-request', "raised is None and calls('mh') == ('mh.read',) and sent('mh.read')[0][1][1:] == (0x1000 + 0x100 * bs, 61)")
+    c.call((mem, 'new_data'), mem, c.snapshot('_a', '0x1000 + 0x100 * bs'), c.get('img'))
+    c.ensure('no-exception', 'raised is None')
+    c.ensure('delivered-once', "len(sent('rcb')) == 1 and is_same(sent('rcb')[0][1][0], mem) and mem._update_finished_cb is None")
+    c.snapshot('g2', "sent('rcb')[0][1][1]")
+    c.snapshot('flat', CAL_FLAT)
+    c.ensure('is-calibration', "typename(g2) == 'LighthouseBsCalibration'")
+    c.ensure('equal-content', 'len(flat) == 14 and all(same_float(flat[i], f32(kv[i])) for i in range(14)) and g2.uid == uid and g2.valid == kvalid')
+
+
+@contract('C14', 'lh.file-objects', [LH + ':LighthouseBsGeometry.as_file_object', LH + ':LighthouseBsGeometry.from_file_object',
+                                    LH + ':LighthouseBsCalibration.as_file_object', LH + ':LighthouseBsCalibration.from_file_object',
+                                    LH + ':LighthouseCalibrationSweep.as_file_object', LH + ':LighthouseCalibrationSweep.from_file_object'],
+          clause='from_file_object(as_file_object(x)) has the content of x and valid = True, for geometry and calibration; the file '
+                 'objects are plain dict/list/number data with the documented keys')
+def lh_file_objects(c):
+    g = geo_object(c)
+    k = calib_object(c)
+    c.call((g, 'as_file_object'))
+    c.ensure('geo-file-object', "raised is None and typename(result) == 'dict' and len(result) == 2 and "
+             "all(same_float(result['origin'][i], gv[i]) for i in range(3)) and len(result['origin']) == 3 and len(result['rotation']) == 3 and "
+             "all(len(result['rotation'][r]) == 3 and all(same_float(result['rotation'][r][i], gv[3 + 3 * r + i]) for i in range(3)) for r in range(3))")
+    c.call((c.cls(LH + ':LighthouseBsGeometry'), 'from_file_object'), c.get('result'))
+    c.let('g2', c.get('result'))
+    c.snapshot('flat', GEO_FLAT)
+    c.ensure('geo-round-trip', "raised is None and typename(g2) == 'LighthouseBsGeometry' and g2.valid is True and len(flat) == 12 and "
+             "all(same_float(flat[i], gv[i]) for i in range(12))")
+    c.call((k, 'as_file_object'))
+    c.ensure('calib-file-object', "raised is None and typename(result) == 'dict' and len(result) == 2 and result['uid'] == uid and "
+             "len(result['sweeps']) == 2 and all(len(result['sweeps'][s]) == 7 and all(same_float(result['sweeps'][s][%r[i]], kv[7 * s + i]) "
+             "for i in range(7)) for s in (0, 1))" % (SWEEP_FIELDS,))
+    c.call((c.cls(LH + ':LighthouseBsCalibration'), 'from_file_object'), c.get('result'))
+    c.let('g2', c.get('result'))
+    c.snapshot('flat', CAL_FLAT)
+    c.ensure('calib-round-trip', "raised is None and typename(g2) == 'LighthouseBsCalibration' and g2.valid is True and g2.uid == uid and "
+             "len(flat) == 14 and all(same_float(flat[i], kv[i]) for i in range(14))")
+
+
+# ======================================================================================= YAML files
+# Assumed contract of the external library (stated, not proved): yaml.safe_load(yaml.dump(d)) == d for plain data
+# (None/bool/int/float/str, lists, dicts with int or str keys).  The symbolic back end models open/yaml.dump/yaml.safe_load as a
+# store of documents under that contract; the native replay / concordance runs use the real PyYAML on a real temporary file.
+
+def _tmpfile(tag):
+    import os
+    return '/tmp/pyvc-C14-%s-%d.yaml' % (tag, os.getpid())
+
+
+def _rmfile(c, fname):
+    """the native back end writes a real file: remove it (the symbolic back end has no file)"""
+    import os
+    if c.backend == 'native' and os.path.exists(fname):
+        os.remove(fname)
+
+
+def _geo_equal(obj, v):
+    flat = '({o}.origin + {o}.rotation_matrix[0] + {o}.rotation_matrix[1] + {o}.rotation_matrix[2])'.format(o=obj)
+    return "(typename({o}) == 'LighthouseBsGeometry' and {o}.valid is True and len({f}) == 12 and all(same_float({f}[i], {v}[i]) for i in range(12)))".format(
+        o=obj, f=flat, v=v)
+
+
+def _calib_equal(obj, v, uid):
+    flat = '[field({o}.sweeps[s], f) for s in (0, 1) for f in {fs!r}]'.format(o=obj, fs=SWEEP_FIELDS)
+    return ("(typename({o}) == 'LighthouseBsCalibration' and {o}.valid is True and {o}.uid == {u} and len({o}.sweeps) == 2 and "
+            "all(same_float({f}[i], {v}[i]) for i in range(14)))").format(o=obj, f=flat, v=v, u=uid)
+
+
+@contract('C14', 'lhcfg.file-roundtrip', [LHCFG + ':LighthouseConfigFileManager.write', LHCFG + ':LighthouseConfigFileManager.read',
+                                         LH + ':LighthouseBsGeometry.as_file_object', LH + ':LighthouseBsGeometry.from_file_object',
+                                         LH + ':LighthouseBsCalibration.as_file_object', LH + ':LighthouseBsCalibration.from_file_object'],
+          clause='read(write(geos, calibs, system_type)) returns exactly the valid geometries and calibrations (every subset of the base '
+                 'stations given), with equal content and valid = True, and the system type',
+          bounded='base station ids 0 and 5 (geometries), 1 and 15 (calibrations); validity flags, all values and the system type symbolic')
+def lhcfg_roundtrip(c):
+    fname = c.let('fname', _tmpfile('lhcfg'))
+    geos = c.dict([(0, geo_object(c, 'ga', 'gav', 'gavalid')), (5, geo_object(c, 'gb', 'gbv', 'gbvalid'))])
+    calibs = c.dict([(1, calib_object(c, 'ka', 'kav', 'kauid', 'kavalid')), (15, calib_object(c, 'kb', 'kbv', 'kbuid', 'kbvalid'))])
+    c.int('stype')
+    c.call(LHCFG + ':LighthouseConfigFileManager.write', fname, geos, calibs, c.get('stype'))
+    c.ensure('write-no-exception', 'raised is None')
+    c.call(LHCFG + ':LighthouseConfigFileManager.read', fname)
+    c.ensure('no-exception', 'raised is None')
+    c.ensure('result-shape', "typename(result) == 'tuple' and len(result) == 3 and typename(result[0]) == 'dict' and typename(result[1]) == 'dict'")
+    c.snapshot('rg', 'result[0]')
+    c.snapshot('rk', 'result[1]')
+    c.ensure('system-type', 'result[2] == stype')
+    c.ensure('only-given-ids', 'all(i in (0, 5) for i in rg) and all(i in (1, 15) for i in rk)')
+    c.ensure('geo-0', '(%s) if 0 in rg else (not gavalid)' % _geo_equal('rg[0]', 'gav'))
+    c.ensure('geo-5', '(%s) if 5 in rg else (not gbvalid)' % _geo_equal('rg[5]', 'gbv'))
+    c.ensure('calib-1', '(%s) if 1 in rk else (not kavalid)' % _calib_equal('rk[1]', 'kav', 'kauid'))
+    c.ensure('calib-15', '(%s) if 15 in rk else (not kbvalid)' % _calib_equal('rk[15]', 'kbv', 'kbuid'))
+    c.ensure('valid-ones-present', 'iff(0 in rg, gavalid) and iff(5 in rg, gbvalid) and iff(1 in rk, kavalid) and iff(15 in rk, kbvalid)')
+    _rmfile(c, fname)
+
+
+PPS = 'cflib.crazyflie.param:PersistentParamState'
+
+
+@contract('C14', 'param.file-roundtrip', [PIO + ':ParamFileManager.write', PIO + ':ParamFileManager.read'],
+          clause='read(write(params)) returns the same parameter names with equal PersistentParamState content (stored flag, default value, '
+                 'stored value or None)',
+          bounded='three parameters: (bool, int, int), (False, float, None), (True, float, float); names concrete, values symbolic')
+def param_roundtrip(c):
+    fname = c.let('fname', _tmpfile('param'))
+    c.bool('s1'), c.int('d1'), c.int('v1'), c.float('d2'), c.float('d3'), c.float('v3')
+    params = c.dict([('ring.effect', c.namedtuple(PPS, c.get('s1'), c.get('d1'), c.get('v1'))),
+                     ('activeMarker.mode', c.namedtuple(PPS, False, c.get('d2'), None)),
+                     ('health.startPropTest', c.namedtuple(PPS, True, c.get('d3'), c.get('v3')))])
+    c.call(PIO + ':ParamFileManager.write', fname, params)
+    c.ensure('write-no-exception', 'raised is None')
+    c.call(PIO + ':ParamFileManager.read', fname)
+    c.ensure('no-exception', 'raised is None')
+    c.ensure('names', "typename(result) == 'dict' and len(result) == 3 and all(typename(result[n]) == 'PersistentParamState' for n in result)")
+    c.ensure('param-1', "result['ring.effect'] == (s1, d1, v1) and typename(result['ring.effect'][0]) == 'bool'")
+    c.snapshot('p2', "result['activeMarker.mode']")
+    c.ensure('param-2', "p2.is_stored is False and same_float(p2.default_value, d2) and p2.stored_value is None")
+    c.snapshot('p3', "result['health.startPropTest']")
+    c.ensure('param-3', "p3.is_stored is True and same_float(p3.default_value, d3) and same_float(p3.stored_value, v3)")
+    _rmfile(c, fname)
+
+
+@contract('C14', 'file-type-envelope', [PIO + ':ParamFileManager.read', LHCFG + ':LighthouseConfigFileManager.read',
+                                       PIO + ':ParamFileManager.write', LHCFG + ':LighthouseConfigFileManager.write'],
+          clause='a file of the other type is refused: reading a lighthouse configuration file as a parameter file (and the reverse) raises '
+                 '"Unsupported file type"; an empty parameter file reads as no parameters')
+def file_type_envelope(c):
+    fname = c.let('fname', _tmpfile('envelope'))
+    which = c.choice('which', ['lh-as-param', 'param-as-lh', 'empty-params'])
+    if which == 'lh-as-param':
+        c.call(LHCFG + ':LighthouseConfigFileManager.write', fname, c.dict([]), c.dict([]), 2)
+        c.require('raised is None')
+        c.call(PIO + ':ParamFileManager.read', fname)
+        c.ensure('refused', "raised == 'Exception' and str(exc) == 'Unsupported file type'")
+    elif which == 'param-as-lh':
+        c.call(PIO + ':ParamFileManager.write', fname, c.dict([]))
+        c.require('raised is None')
+        c.call(LHCFG + ':LighthouseConfigFileManager.read', fname)
+        c.ensure('refused', "raised == 'Exception' and str(exc) == 'Unsupported file type'")
+    else:
+        c.call(PIO + ':ParamFileManager.write', fname, c.dict([]))
+        c.require('raised is None')
+        c.call(PIO + ':ParamFileManager.read', fname)
+        c.ensure('empty', 'raised is None and result == {}')
+    _rmfile(c, fname)
+
+
+# ======================================================================================= deck memory info section
+
+# firmware (deck_memory.c): info section = version byte (3) followed by 8 records of 0x20 bytes:
+#   uint8 bitfield1 (1 valid, 2 started, 4 read, 8 write, 16 upgrade, 32 upgrade required, 64 bootloader active),
+#   uint8 bitfield2 (1 reset to fw, 2 reset to bootloader), uint32 required hash, uint32 required length, uint32 base address,
+#   char name[18] NUL padded (a name of 18 characters has no terminator)
+DECK_FLAGS1 = ('is_valid', 'is_started', 'supports_read', 'supports_write', 'supports_fw_upgrade', 'is_fw_upgrade_required',
+               'is_bootloader_active')
+DECK_FLAGS2 = ('supports_reset_to_fw', 'supports_reset_to_bootloader')
+
+
+def deck_record(c, suffix, name_len):
+    """a symbolic info record whose ASCII name has exactly name_len characters; returns the spec expression of its 32 bytes"""
+    c.int('bf1' + suffix, 0, 255), c.int('bf2' + suffix, 0, 255)
+    c.int('hash' + suffix, 0, 2 ** 32 - 1), c.int('rlen' + suffix, 0, 2 ** 32 - 1), c.int('base' + suffix, 0, 2 ** 32 - 1)
+    c.bytes('nm' + suffix, name_len)
+    c.require('all(1 <= ch <= 127 for ch in nm%s)' % suffix)
+    return "pack('<BBLLL', bf1{s}, bf2{s}, hash{s}, rlen{s}, base{s}) + nm{s} + bytes({pad})".format(s=suffix, pad=18 - name_len)
+
+
+def deck_fields_ok(obj, suffix):
+    flags = ' and '.join('%s.%s == ((bf1%s >> %d) & 1 == 1)' % (obj, f, suffix, i) for i, f in enumerate(DECK_FLAGS1))
+    flags2 = ' and '.join('%s.%s == ((bf2%s >> %d) & 1 == 1)' % (obj, f, suffix, i) for i, f in enumerate(DECK_FLAGS2))
+    return ("({f1} and {f2} and {o}.required_hash == hash{s} and {o}.required_length == rlen{s} and {o}._base_address == base{s} and "
+            "{o}.name == nm{s}.decode('ascii'))").format(f1=flags, f2=flags2, o=obj, s=suffix)
+
+
+@contract('C14', 'deck.parse-record', [DECK + ':DeckMemory._parse'] + [DECK + ':DeckMemory.' + f for f in DECK_FLAGS1 + DECK_FLAGS2],
+          clause='a deck-memory info record parses to exactly the fields the device encoded: the seven + two flag properties equal the '
+                 'bits of the two bit-field bytes for all 65,536 combinations, and a valid record yields hash, length, base address and the '
+                 'name, for names of every length 0..18 (18 = no NUL terminator); an invalid record leaves the fields unset',
+          bounded='names are ASCII (1..127) and NUL padded to the 18-byte field')
+def deck_parse_record(c):
+    n = c.choice('name_len', list(range(19)))
+    rec = deck_record(c, '', n)
+    d = c.new(DECK + ':DeckMemory', c.ext('mgr'), 0x1000)
+    c.let('d', d)
+    c.snapshot('rec', rec)
+    c.require('len(rec) == 32')
+    c.call((d, '_parse'), c.get('rec'))
+    c.ensure('no-exception', 'raised is None')
+    c.ensure('fields', '(%s) if bf1 & 1 == 1 else (%s)' % (
+        deck_fields_ok('d', ''),
+        'd.is_valid is False and d.name is None and d.required_hash is None and d.required_length is None and d._base_address is None and ' +
+        ' and '.join('d.%s == ((bf1 >> %d) & 1 == 1)' % (f, i) for i, f in enumerate(DECK_FLAGS1)) + ' and ' +
+        ' and '.join('d.%s == ((bf2 >> %d) & 1 == 1)' % (f, i) for i, f in enumerate(DECK_FLAGS2))))
+    c.ensure('flag-types', ' and '.join("typename(d.%s) == 'bool'" % f for f in DECK_FLAGS1 + DECK_FLAGS2))
+    c.ensure('command-address-kept', 'd._command_base_address == 0x1000')
+
+
+@contract('C14', 'deck.query', [DECK + ':DeckMemoryManager.query_decks', DECK + ':DeckMemoryManager._new_data',
+                               DECK + ':DeckMemoryManager._parse_info_section', DECK + ':DeckMemory._parse', DECK + ':DeckMemory.__init__'],
+          clause='a query reads the 257-byte info section once and reports, exactly once, a dictionary holding exactly the records whose valid '
+                 'bit is set, keyed by record index, each with the fields the device encoded and its own command address 0x1000 + 0x20 * index',
+          bounded='records 0, 3, 7 fully symbolic with names of 18, 4 and 0 characters; records 1, 2, 4, 5, 6 symbolic but not valid')
+def deck_query(c):
+    mh = c.ext('mh')
+    mgr = c.new(DECK + ':DeckMemoryManager', 7, 0x19, 0x20000000, mh)
+    c.let('mgr', mgr)
+    lens = {0: 18, 3: 4, 7: 0}
+    recs = []
+    for i in range(8):
+        recs.append(deck_record(c, '_%d' % i, lens.get(i, 2)))
+        if i not in lens:
+            c.require('bf1_%d & 1 == 0' % i)
+    c.snapshot('section', "pack('<B', 3) + " + ' + '.join(recs))
+    c.require('len(section) == 257')
+    c.call((mgr, 'query_decks'), c.ext('done'), c.ext('failed'))
+    c.ensure('query-reads-info-section', "raised is None and calls() == ('mh.read',) and is_same(sent('mh.read')[0][1][0], mgr) and "
+             "sent('mh.read')[0][1][1:] == (0, 257)")
+    c.reset_trace()
+    c.call((mgr, '_new_data'), mgr, 0, c.get('section'))
+    c.ensure('no-exception', 'raised is None')
+    c.ensure('reported-once', "calls() == ('done',) and len(sent('done')[0][1]) == 1 and mgr._query_complete_cb is None")
+    c.snapshot('decks', "sent('done')[0][1][0]")
+    c.ensure('is-the-stored-dict', "typename(decks) == 'dict' and is_same(decks, mgr.deck_memories)")
+    c.ensure('only-valid-records', 'all(i in (0, 3, 7) for i in decks) and iff(0 in decks, bf1_0 & 1 == 1) and '
+             'iff(3 in decks, bf1_3 & 1 == 1) and iff(7 in decks, bf1_7 & 1 == 1)')
+    for i in (0, 3, 7):
+        c.ensure('record-%d' % i, "(%s and decks[%d]._command_base_address == 0x1000 + 0x20 * %d and typename(decks[%d]) == 'DeckMemory') "
+                 "if %d in decks else True" % (deck_fields_ok('decks[%d]' % i, '_%d' % i), i, i, i, i))
+
+
+@contract('C14', 'deck.query-version', [DECK + ':DeckMemoryManager.query_decks', DECK + ':DeckMemoryManager._new_data',
+                                       DECK + ':DeckMemoryManager._parse_info_section'],
+          clause='an info section of another version than 3 is not parsed: the failure callback is called once with a message and no decks are reported')
+def deck_query_version(c):
+    mh = c.ext('mh')
+    mgr = c.new(DECK + ':DeckMemoryManager', 7, 0x19, 0x20000000, mh)
+    c.let('mgr', mgr)
+    c.bytes('section', 257)
+    c.require('section[0] != 3')
+    c.call((mgr, 'query_decks'), c.ext('done'), c.ext('failed'))
+    c.require('raised is None')
+    c.reset_trace()
+    c.call((mgr, '_new_data'), mgr, 0, c.get('section'))
+    c.ensure('failure-reported-once', "raised is None and calls() == ('failed',) and len(sent('failed')[0][1]) == 1 and "
+             "typename(sent('failed')[0][1][0]) == 'str'")
+    c.ensure('nothing-stored', 'mgr.deck_memories == {} and mgr._query_complete_cb is None and mgr._query_failed_cb is None')
+
+
+# ======================================================================================= loco positioning anchor lists
+
+# firmware (locodeck memory handler): LPS v1: byte 0 = number of anchors; anchor page i at 0x1000 + 0x100 * i = float x, y, z, bool valid.
+# LPS v2: id list at 0x0000 and active id list at 0x1000 = count byte + up to 16 ids; anchor page of id at 0x2000 + 0x100 * id.
+
+@contract('C14', 'loco.anchor-pages', [LOCO + ':LocoMemory.update', LOCO + ':LocoMemory.new_data', LOCO + ':LocoMemory._request_page',
+                                      LOCO + ':AnchorData.set_from_mem_data', LOCO + ':AnchorData.__init__'],
+          clause='the anchor count and the fff? record of every anchor page are parsed as encoded (pages requested in order at '
+                 '0x1000 + 0x100 * i, 13 bytes), and completion is reported exactly once after the last page',
+          bounded='anchor counts 0..3 (the count byte is concrete, page contents symbolic)')
+def loco_pages(c):
+    mh = c.ext('mh')
+    m = c.new(LOCO + ':LocoMemory', 3, 0x11, 0x2000, mh)
+    c.let('m', m)
+    n = c.choice('n', [0, 1, 2, 3])
+    c.let('n', n)
+    c.call((m, 'update'), c.ext('cb'))
+    c.ensure('update-reads-count', "raised is None and calls() == ('mh.read',) and sent('mh.read')[0][1][1:] == (0, 1) and m.valid is False")
+    c.reset_trace()
+    c.call((m, 'new_data'), m, 0, bytes([n]))
+    c.ensure('count-no-exception', 'raised is None')
+    for i in range(n):
+        c.ensure('page-%d-requested' % i, "calls() == ('mh.read',) and sent('mh.read')[0][1][1:] == (0x1000 + 0x100 * %d, 13) and m.valid is False" % i)
+        c.reset_trace()
+        c.bytes('page%d' % i, 13)
+        c.call((m, 'new_data'), m, 0x1000 + 0x100 * i, c.get('page%d' % i))
+        c.ensure('page-%d-no-exception' % i, 'raised is None')
+    c.ensure('reported-once', "calls() == ('cb',) and is_same(sent('cb')[0][1][0], m) and m.valid is True and m._update_finished_cb is None")
+    c.ensure('count', 'm.nr_of_anchors == n and len(m.anchor_data) == n')
+    for i in range(n):
+        c.snapshot('want', "unpack('<fff?', page%d)" % i)
+        c.snapshot('a', 'm.anchor_data[%d]' % i)
+        c.ensure('anchor-%d' % i, "typename(a) == 'AnchorData' and typename(a.position) == 'tuple' and len(a.position) == 3 and "
+                 "all(same_float(a.position[j], want[j]) for j in range(3)) and a.is_valid == (page%d[12] != 0) and typename(a.is_valid) == 'bool'" % i)
+
+
+def _loco2_ids(n):
+    @contract('C14', 'loco2.id-lists.n%d' % n, [LOCO2 + ':LocoMemory2.update_id_list', LOCO2 + ':LocoMemory2.update_active_id_list',
+                                               LOCO2 + ':LocoMemory2.new_data', LOCO2 + ':LocoMemory2._handle_id_list_data',
+                                               LOCO2 + ':LocoMemory2._handle_active_id_list_data'],
+              clause='the anchor id list and the active id list parse to exactly the count and the ids the device encoded, in order, '
+                     'ignoring the unused tail of the 17-byte list; each update is reported exactly once',
+              bounded='%d ids (counts 0, 1, 3, 16 enumerated), %d active ids' % (n, min(n, 2)))
+    def k(c):
+        mh = c.ext('mh')
+        m = c.new(LOCO2 + ':LocoMemory2', 3, 0x13, 0x4000, mh)
+        c.let('m', m)
+        na = min(n, 2)
+        c.let('n', n), c.let('na', na)
+        c.bytes('ids', n), c.bytes('tail', 16 - n), c.bytes('act', na), c.bytes('atail', 16 - na)
+        c.call((m, 'update_id_list'), c.ext('cb'))
+        c.ensure('request', "raised is None and calls() == ('mh.read',) and sent('mh.read')[0][1][1:] == (0, 17) and m.ids_valid is False")
+        c.reset_trace()
+        c.call((m, 'new_data'), m, 0, c.snapshot('_l', 'bytes([n]) + ids + tail'))
+        c.ensure('ids', "raised is None and m.nr_of_anchors == n and m.anchor_ids == list(ids) and m.ids_valid is True")
+        c.ensure('reported-once', "calls() == ('cb',) and is_same(sent('cb')[0][1][0], m) and m._update_ids_finished_cb is None")
+        c.reset_trace()
+        c.call((m, 'update_active_id_list'), c.ext('acb'))
+        c.ensure('active-request', "raised is None and calls() == ('mh.read',) and sent('mh.read')[0][1][1:] == (0x1000, 17) and m.active_ids_valid is False")
+        c.reset_trace()
+        c.call((m, 'new_data'), m, 0x1000, c.snapshot('_a', 'bytes([na]) + act + atail'))
+        c.ensure('active-ids', "raised is None and m.active_anchor_ids == list(act) and m.active_ids_valid is True and m.anchor_ids == list(ids)")
+        c.ensure('active-reported-once', "calls() == ('acb',) and is_same(sent('acb')[0][1][0], m) and m._update_active_ids_finished_cb is None")
+    return k
+
+
+for _n in (0, 1, 3, 16):
+    _loco2_ids(_n)
+
+
+@contract('C14', 'loco2.anchor-data', [LOCO2 + ':LocoMemory2.update_data', LOCO2 + ':LocoMemory2.new_data', LOCO2 + ':LocoMemory2._handle_anchor_data',
+                                      LOCO2 + ':LocoMemory2._request_page', LOCO2 + ':AnchorData2.set_from_mem_data',
+                                      LOCO2 + ':LocoMemory2._handle_id_list_data'],
+          clause='anchor data is fetched for exactly the listed ids, in list order, from page 0x2000 + 0x100 * id (13 bytes), each fff? record '
+                 'is stored under its id as encoded, and completion is reported exactly once after the last one',
+          bounded='two anchors with ids (0, 1), (7, 2) or (255, 128); page contents symbolic')
+def loco2_data(c):
+    mh = c.ext('mh')
+    m = c.new(LOCO2 + ':LocoMemory2', 3, 0x13, 0x4000, mh)
+    c.let('m', m)
+    id0, id1 = c.choice('ids', [(0, 1), (7, 2), (255, 128)])
+    c.let('id0', id0), c.let('id1', id1)
+    c.bytes('p0', 13), c.bytes('p1', 13)
+    c.call((m, 'update_id_list'), c.ext('cb'))
+    c.call((m, 'new_data'), m, 0, bytes([2, id0, id1]) + bytes(14))
+    c.require('raised is None')
+    c.reset_trace()
+    c.call((m, 'update_data'), c.ext('dcb'))
+    c.ensure('first-page', "raised is None and calls() == ('mh.read',) and sent('mh.read')[0][1][1:] == (0x2000 + 0x100 * id0, 13) and m.data_valid is False")
+    c.reset_trace()
+    c.call((m, 'new_data'), m, 0x2000 + 0x100 * id0, c.get('p0'))
+    c.ensure('second-page', "raised is None and calls() == ('mh.read',) and sent('mh.read')[0][1][1:] == (0x2000 + 0x100 * id1, 13) and m.data_valid is False")
+    c.reset_trace()
+    c.call((m, 'new_data'), m, 0x2000 + 0x100 * id1, c.get('p1'))
+    c.ensure('reported-once', "raised is None and calls() == ('dcb',) and is_same(sent('dcb')[0][1][0], m) and m.data_valid is True and "
+             "m._update_data_finished_cb is None")
+    c.ensure('exactly-the-listed-ids', 'len(m.anchor_data) == 2 and id0 in m.anchor_data and id1 in m.anchor_data')
+    for i in (0, 1):
+        c.snapshot('want', "unpack('<fff?', p%d)" % i)
+        c.snapshot('a', 'm.anchor_data[id%d]' % i)
+        c.ensure('anchor-%d' % i, "typename(a) == 'AnchorData2' and len(a.position) == 3 and all(same_float(a.position[j], want[j]) for j in range(3)) "
+                 "and a.is_valid == (p%d[12] != 0)" % i)
+
+
+# ======================================================================================= write-only images
+
+# firmware struct poly4d { float p[4][8]; float duration; } (x, y, z, yaw polynomials, then the duration): 132 bytes, little endian
+@contract('C14', 'poly4d.pack', [TRAJ + ':Poly4D.pack', TRAJ + ':Poly4D.__init__', TRAJ + ':Poly4D.Poly.__init__'],
+          clause='a polynomial trajectory piece is packed as 33 binary32 values in the order x[0..7], y[0..7], z[0..7], yaw[0..7], duration '
+                 '(132 bytes); an omitted polynomial is all zeros; a coefficient outside binary32 raises OverflowError')
+def poly4d_pack(c):
+    names = ['x', 'y', 'z', 'yaw']
+    omit = c.choice('omit', [None, 'z'])
+    polys = {}
+    for nm in names:
+        if nm == omit:
+            c.let(nm, [0.0] * 8)
+            continue
+        vals = c.floats(nm, 8)
+        polys[nm] = c.new(TRAJ + ':Poly4D.Poly', vals)
+    c.float('duration')
+    p = c.new(TRAJ + ':Poly4D', c.get('duration'), **polys)
+    c.call((p, 'pack'))
+    c.ensure('raises-iff-unrepresentable', 'iff(raised is None, all(fits_f32(v) for v in list(x) + list(y) + list(z) + list(yaw) + [duration]))')
+    if c.get('raised') is None:
+        c.ensure('layout', "bytes(result) == pack('<' + 'f' * 33, *x, *y, *z, *yaw, duration)")
+        c.ensure('size', "len(result) == 132 and typename(result) == 'bytearray'")
+    else:
+        c.ensure('declared-errors-only', "raised == 'OverflowError'")
+
+
+@contract('C14', 'trajectory.write_data', [TRAJ + ':TrajectoryMemory.write_data', TRAJ + ':Poly4D.pack'],
+          clause='the trajectory image is the concatenation of the packed pieces in list order, written once (flushed) at the start address; the '
+                 'number of bytes is returned',
+          bounded='two pieces (representable coefficients)')
+def trajectory_write(c):
+    mh = c.ext('mh')
+    t = c.new(TRAJ + ':TrajectoryMemory', 5, 0x12, 4096, mh)
+    c.let('t', t)
+    pieces = []
+    for i in (0, 1):
+        ps = {}
+        for nm in ('x', 'y', 'z', 'yaw'):
+            ps[nm] = c.new(TRAJ + ':Poly4D.Poly', c.floats('%s%d' % (nm, i), 8))
+        c.float('dur%d' % i)
+        pieces.append(c.new(TRAJ + ':Poly4D', c.get('dur%d' % i), **ps))
+        c.require('all(fits_f32(v) for v in list(x{i}) + list(y{i}) + list(z{i}) + list(yaw{i}) + [dur{i}])'.format(i=i))
+    c.let('pieces', pieces)
+    c.snapshot('_', "setattr(t, 'trajectory', pieces)")
+    c.int('start', 0, 4095)
+    c.reset_trace()
+    c.call((t, 'write_data'), c.ext('done'), c.ext('failed'), c.get('start'))
+    c.ensure('no-exception', 'raised is None')
+    c.ensure('one-write', "calls() == ('mh.write',) and is_same(sent('mh.write')[0][1][0], t) and sent('mh.write')[0][1][1] == start and "
+             "len(sent('mh.write')[0][1]) == 3 and sent('mh.write')[0][2] == {'flush_queue': True}")
+    c.ensure('layout', "bytes(sent('mh.write')[0][1][2]) == pack('<' + 'f' * 33, *x0, *y0, *z0, *yaw0, dur0) + pack('<' + 'f' * 33, *x1, *y1, *z1, *yaw1, dur1)")
+    c.ensure('returns-size', 'result == 264')
+
+
+# firmware (ledring12.c, "timing memory" effect): records of 4 bytes: duration, RGB565 high byte, RGB565 low byte,
+# leds (bits 0-3) | fade (bit 4) | rotate (bits 5-7); the sequence ends at the first all-zero record.  RGB565 = nearest 5/6/5-bit level.
+LED565 = '(((2 * r{i} * 31 + 255) // 510) * 2048 + ((2 * g{i} * 63 + 255) // 510) * 32 + ((2 * b{i} * 31 + 255) // 510))'
+
+
+@contract('C14', 'ledtimings.write_data', [LEDT + ':LEDTimingsDriverMemory.add', LEDT + ':LEDTimingsDriverMemory.write_data'],
+          clause='the LED timing image is one 4-byte record per timing (duration, RGB565 big endian with each colour rounded to the nearest 5/6/5 '
+                 'bit level, leds | fade << 4 | rotate << 5), in order, a timing that would read as the all-zero terminator is not emitted, and '
+                 'the image ends with the all-zero terminator record; written once (flushed) at address 0',
+          bounded='two timings; time and colours 0..255, leds 0..15, rotate 0..7 (the representable field values)')
+def ledtimings_write(c):
+    mh = c.ext('mh')
+    m = c.new(LEDT + ':LEDTimingsDriverMemory', 6, 0x17, 2000, mh)
+    c.let('m', m)
+    for i in (0, 1):
+        c.int('time%d' % i, 0, 255), c.int('r%d' % i, 0, 255), c.int('g%d' % i, 0, 255), c.int('b%d' % i, 0, 255)
+        c.int('leds%d' % i, 0, 15), c.bool('fade%d' % i), c.int('rotate%d' % i, 0, 7)
+        c.call((m, 'add'), c.get('time%d' % i), c.dict([('r', c.get('r%d' % i)), ('g', c.get('g%d' % i)), ('b', c.get('b%d' % i))]),
+               c.get('leds%d' % i), c.get('fade%d' % i), c.get('rotate%d' % i))
+        c.require('raised is None')
+        c.snapshot('led%d' % i, LED565.format(i=i))
+        c.snapshot('rec%d' % i, '(time{i}, led{i} // 256, led{i} % 256, leds{i} + (16 if fade{i} else 0) + rotate{i} * 32)'.format(i=i))
+    c.reset_trace()
+    c.call((m, 'write_data'), c.ext('done'))
+    c.ensure('no-exception', 'raised is None')
+    c.ensure('one-write', "calls() == ('mh.write',) and is_same(sent('mh.write')[0][1][0], m) and sent('mh.write')[0][1][1] == 0 and "
+             "len(sent('mh.write')[0][1]) == 3 and sent('mh.write')[0][2] == {'flush_queue': True}")
+    c.snapshot('img', "bytes(sent('mh.write')[0][1][2])")
+    c.snapshot('z', '(0, 0, 0, 0)')
+    nrec = c.snapshot('nrec', 'len(img) // 4 - 1')        # concrete on every path
+    c.ensure('terminated', 'len(img) % 4 == 0 and nrec >= 0 and tuple(img[-4:]) == z')
+    if nrec == 0:
+        c.ensure('layout', 'rec0 == z and rec1 == z')
+    elif nrec == 1:
+        c.ensure('layout', '(tuple(img[0:4]) == rec0 and rec0 != z and rec1 == z) or (rec0 == z and tuple(img[0:4]) == rec1 and rec1 != z)')
+    else:
+        c.ensure('layout', 'nrec == 2 and tuple(img[0:4]) == rec0 and tuple(img[4:8]) == rec1 and rec0 != z and rec1 != z')
+    c.ensure('is-bytearray', "typename(sent('mh.write')[0][1][2]) == 'bytearray'")
+
+
+# ======================================================================================= re-reads on the same object (content)
+
+@contract('C14', 'ow.reread-roundtrip', [OW + ':OWElement.write_data', OW + ':OWElement.update', OW + ':OWElement.new_data',
+                                        OW + ':OWElement._parse_and_check_elements'],
+          clause='round trip on a re-read: an element object that has read one written image and then reads another written image (the '
+                 'memory was rewritten) reports exactly the elements of the image it read last',
+          bounded='first image {Custom: 1 char}, second image {Board name: 2 chars}', thorough_only=True)   # FINDING, see module docstring
+def ow_reread(c):
+    c.int('pins', 0, 2 ** 32 - 1), c.int('vid', 0, 255), c.int('pid', 0, 255)
+    c.str('custom', 1, lo=0, hi=255), c.str('name', 2, lo=0, hi=255)
+    imgs = []
+    for i, d in enumerate(("{'Custom': custom}", "{'Board name': name}")):
+        w, _ = ow_element(c, 'wmh%d' % i)
+        ow_fill(c, w, d)
+        c.call((w, 'write_data'), c.ext('wcb'))
+        c.require('raised is None')
+        c.snapshot('img%d' % i, "bytes(sent('wmh%d.write')[0][1][2])" % i)
+    rd, _ = ow_element(c)
+    c.let('rd', rd)
+    ow_feed(c, rd, 'img0', c.ext('cb0'))
+    c.require("raised is None and rd.valid is True and rd.elements == {'Custom': custom}")
+    ow_feed(c, rd, 'img1', c.ext('cb'))
+    c.ensure('valid', 'raised is None and rd.valid is True')
+    c.ensure('elements-of-the-last-image', "rd.elements == {'Board name': name}")
+
+
+@contract('C14', 'i2c.reread-roundtrip', [I2C + ':I2CElement.update', I2C + ':I2CElement.new_data'],
+          clause='round trip on a re-read: an element object that has read a version-1 image and then reads a valid version-0 image reports '
+                 'exactly the fields of the version-0 image (no radio address left over from the earlier image)',
+          thorough_only=True)                                                                             # FINDING, see module docstring
+def i2c_reread(c):
+    el, mh = i2c_element(c)
+    c.let('el', el)
+    c.bytes('img0', 21), c.bytes('img', 16)
+    c.require(I2C_VALID.replace('img', 'img0') + ' and img0[4] == 1')
+    c.require("img[0:4] == b'0xBC' and img[4] == 0 and sum(img[0:15]) % 256 == img[15]")
+    i2c_feed(c, el, mh, 'img0', c.ext('cb0'))
+    c.require("raised is None and el.valid is True and 'radio_address' in el.elements")
+    i2c_feed(c, el, mh, 'img', c.ext('cb'))
+    c.ensure('valid', 'raised is None and el.valid is True')
+    c.ensure('fields-of-the-last-image', "len(el.elements) == 5 and 'radio_address' not in el.elements")
